@@ -103,7 +103,8 @@ impl Drop for CtxP {
     }
 }
 
-type Ctx = CArc<()>;
+// the shared context in its ERASED form, as plugin entry points receive it: every creation goes through CArc::<T>::into_opaque
+type Ctx = CArc<cglue::trait_group::c_void>;
 enum H<'a> {
     Dead,
     Node(NodeCtxBox<'a, Ctx>),
@@ -131,7 +132,7 @@ pub fn run(_params: &[i64], ops: &Rows, mon: &mut Mon) -> Rows {
         let op = all[k].clone();
         let c = op[0];
         let h = op.get(1).copied().unwrap_or(-1);
-        let ctx = || Ctx::from(arc.clone());
+        let ctx = || -> Ctx { CArc::<()>::from(arc.clone()).into_opaque() };
         let mut res: Option<Option<H>> = None;
         match c {
             0 => res = Some(Some(H::Node(trait_obj!((Inst::new(op[1]), ctx()) as Node)))),
